@@ -151,6 +151,14 @@ def apply_payload(m, mtype, pl, rng, history, depth):
             m.harmonic_volumes.values = list(pl["harmonic_volumes"])
             m.harmonic_widths.values = list(pl["harmonic_widths"])
             m.harmonic_types.values = [H(v) for v in pl["harmonic_types"]]
+            if rng.random() < 0.5:
+                # ... and afterwards one harmonic is set through its proxy object again
+                i = rng.randrange(16)
+                h = m.harmonics[i]
+                h.freq_hz, h.volume, h.width, h.type = pl["harmonic_freqs"][i], pl["harmonic_volumes"][i], pl["harmonic_widths"][i], H(pl["harmonic_types"][i])
+                pl["harmonic_volumes"][i] = (pl["harmonic_volumes"][i] + 1) % 256
+                h.volume = pl["harmonic_volumes"][i]
+                history.append(("harmonic-proxy-after-array", i))
             history.append(("harmonics-via-arrays",))
     elif mtype in ("Analog generator", "Generator"):
         m.drawn_waveform.samples = list(pl["drawn_waveform"])
@@ -165,11 +173,22 @@ def apply_payload(m, mtype, pl, rng, history, depth):
         if m.user_defined_controllers != n:
             m.user_defined_controllers = n
         for i, label in pl["labels_all"].items():
+            if label is not None and rng.random() < 0.3:
+                label = _Text(label)            # text is text, whatever str subclass carries it
             m.user_defined[i].label = label
         m.update_user_defined_controllers()
         m.recompute_controller_attachment()
     elif mtype == "Sampler":
         apply_sampler(m, pl, rng, history, depth)
+
+
+class _Text(str):
+    """A str subclass whose str() is NOT its text (like a (str, Enum) member): the text is what counts."""
+
+    def __str__(self):
+        return "Text<" + str.__str__(self) + ">"
+
+    __repr__ = __str__
 
 
 def apply_envelope(e, d):
@@ -236,7 +255,16 @@ def build_pattern(ad, rng):
             kw[f] = ad[f]
         else:
             later.append(f)
-    q = api.Pattern(**kw)
+    if rng.random() < 0.25:
+        # constructed with the default size, the real size assigned afterwards (nothing has looked at the cells yet)
+        kw.pop("tracks"), kw.pop("lines")
+        q = api.Pattern(**kw)
+        if rng.random() < 0.5:
+            q.tracks, q.lines = ad["tracks"], ad["lines"]
+        else:
+            q.lines, q.tracks = ad["lines"], ad["tracks"]
+    else:
+        q = api.Pattern(**kw)
     for f in later:
         setattr(q, f, ad[f])
     cells = ad["cells"]
